@@ -86,7 +86,7 @@ Definition is_rnone (k : rkind) : bool := match k with RNone => true | _ => fals
 Definition is_public (k : rsel) : bool := match k with SelPublicCopy => true | _ => false end.
 Definition groupagg_records_nothing : bool := is_rnone (rec_of gen_cfg MGroupAgg).
 Definition toDF_records_nothing : bool := is_rnone (rec_of gen_cfg MToDF).
-Definition join_records_nothing : bool := is_rnone (rec_of gen_cfg MJoin).
+Definition join_records_nothing : bool := is_rnone (rec_of gen_cfg MJoin) && negb (join_merges gen_cfg).
 Definition drop_reselects_publicly : bool := is_public (resel_of gen_cfg MDrop).
 Definition fillna_reselects_publicly : bool := is_public (resel_of gen_cfg MFillna).
 Definition dropna_reselects_publicly : bool := is_public (resel_of gen_cfg MDropna).
